@@ -85,7 +85,7 @@ def nontrivial(case, obs):
     return any(e[0] == 'ctl' and e[2][0] != 'raised' and e[2] != ['bool', False] for e in obs['trace'])
 
 
-EVENTS = [['ctl', c] for c in (['pause', 'p'], ['pause', None], ['play'], ['kill', 'k'], ['resume'], ['resume', 42])]
+EVENTS = [['ctl', c] for c in (['pause', 'p'], ['pause', None], ['play'], ['kill', 'k'], ['resume'], ['resume', 42], ['fail', 'f'])] + [['late', 1]]
 
 
 def programs():
@@ -102,7 +102,7 @@ def generate(tier, rng, around=None):
         cases += list(around or [])
     progs = programs()
     names = list(progs) if tier != 'quick' else ['sync3', 'async', 'wait', 'output', 'raise', 'killcmd', 'kill_in_step', 'pause_in_step']
-    variants = [{}, {'listeners': [['on_process_running', 1, ['kill', 'from-listener']]]},
+    variants = [{'callbacks': [['ok'], ['raise', 'cb']]}, {'listeners': [['on_process_running', 1, ['kill', 'from-listener']]]},
                 {'listeners': [['on_process_waiting', 0, ['kill', 'from-listener']]]}]
     for name in names:
         prog = progs[name]
